@@ -251,6 +251,7 @@ def add_selftests(traces, k=5):
                 c = json.loads(json.dumps(t))
                 c['ev'] = [c['ev'][i]]
                 c['ev'][0]['rest'] = c['ev'][0]['rest'] + [7]
+                c['ev'][0]['src'] = 0
                 c['id'] = SELFTEST_BASE + len(out)
                 out.append(c)
                 break
